@@ -146,14 +146,46 @@ def generic_table_check(ctx, pid, prop_file, harness_cmd, cases_tpl, model_targe
         if ctx.violation(v["signature"], v["what"], {"kind": "direct", "replay": v["replay"]}):
             found = True
     okm, outm, _ = coq_make(ctx, model_targets)
-    shutil.copyfile(os.path.join(ROOT, "coq", "Run", cases_tpl), os.path.join(ctx.rundir, "cases.v"))
-    rcc, outc = coqc_run(ctx, "observed.v") if okm else (1, outm)
-    if rcc == 0:
-        rcc, outc = coqc_run(ctx, "cases.v")
+    shards = sorted(d for d in glob.glob(os.path.join(ctx.rundir, "shard_*")) if os.path.isdir(d) and os.path.exists(os.path.join(d, "index.json")))
+    if shards and okm:
+        # the harness wrote its observations as independent files: evaluate them in parallel, merge with the global indices
+        t0 = time.time()
+        procs = []
+        for d in shards:
+            shutil.copyfile(os.path.join(ROOT, "coq", "Run", cases_tpl), os.path.join(d, "cases.v"))
+            base = "coqc -Q %s Verif -Q %s Run -w -notation-overridden,-deprecated-hint-without-locality,-deprecated " % (os.path.join(ROOT, "coq"), d)
+            procs.append(subprocess.Popen("%sobserved.v && %scases.v" % (base, base), shell=True, cwd=d, stdout=subprocess.PIPE, stderr=subprocess.STDOUT))
+        outs = []
+        for prc in procs:
+            o, _ = prc.communicate()
+            outs.append((prc.returncode, o.decode("utf-8", "replace")))
+        rcc = max(rc for rc, _ in outs)
+        ctx.note("coqc %d shards rc=%d (%.1fs)" % (len(shards), rcc, time.time() - t0))
+        outc = "\n".join(o for rc, o in outs if rc != 0)
+        defs = {}
+        if rcc == 0:
+            merged, nobs = {}, 0
+            for d, (_, o) in zip(shards, outs):
+                idx = json.load(open(os.path.join(d, "index.json")))
+                dd = parse_defs(o)
+                nobs += int(re.sub(r"\D", "", dd.get("n_observed", "0").split(":")[0].replace("%nat", "")) or 0)
+                for k, v in dd.items():
+                    if k.endswith("_bad"):
+                        flat = re.sub(r"\s+", " ", v)
+                        for (i, msgs) in re.findall(r'\((\d+)(?:%nat)?, \[([^\]]*)\]\)', flat):
+                            merged.setdefault(k, []).append((idx[int(i)], msgs))
+            for k, l in merged.items():
+                defs[k] = "[" + "; ".join("(%d, [%s])" % (i, m) for i, m in sorted(l)) + "]"
+            defs["n_observed"] = str(nobs)
+    else:
+        shutil.copyfile(os.path.join(ROOT, "coq", "Run", cases_tpl), os.path.join(ctx.rundir, "cases.v"))
+        rcc, outc = coqc_run(ctx, "observed.v") if okm else (1, outm)
+        if rcc == 0:
+            rcc, outc = coqc_run(ctx, "cases.v")
+        defs = parse_defs(outc) if rcc == 0 else {}
     if rcc != 0:
         ctx.violation(pid + ":cases-eval", "model evaluation failed", {"kind": "coqc", "output": outc[-3000:], "unchecked": "correspondence " + pid}, nofail=True)
         return finish(ctx, "proof")
-    defs = parse_defs(outc)
     found = interpret(ctx, defs, summ) or found
     if not pr["built"] and not found:
         ctx.violation("%s:proof:%s" % (pid, pr.get("broken_lemma")), "theorem no longer checks",
@@ -683,7 +715,7 @@ def check_C08(ctx):
     if not okb or not okm:
         ctx.violation("C08:build", "the concurrency run could not be built", {"kind": "build", "output": (outb if not okb else outm)[-3000:], "unchecked": "correspondence C08"}, nofail=True)
         return finish(ctx, "proof")
-    args = ["c08", "-sets", "1" if ctx.tier == "quick" else "6", "-bound", "2", "-cap", "150" if ctx.tier == "quick" else "4000", "-random", "20" if ctx.tier == "quick" else "400"]
+    args = ["c08", "-sets", "1" if ctx.tier == "quick" else "6", "-bound", "2", "-cap", "150" if ctx.tier == "quick" else "4000", "-random", "20" if ctx.tier == "quick" else "400", "-shards", "2"]
     key = tree_key(("c08", args, ctx.seed))
     cdir = os.path.join(ROOT, "run", "pubcache", key)
     res_path = os.path.join(cdir, "result.json")
@@ -698,19 +730,36 @@ def check_C08(ctx):
         if rc != 0:
             ctx.violation("C08:harness-run", "the scheduler run failed", {"kind": "harness-run", "output": out[-3000:], "unchecked": "correspondence C08"}, nofail=True)
             return finish(ctx, "proof")
-        shutil.copyfile(os.path.join(ROOT, "coq", "Run", "ConcCases.v"), os.path.join(cdir, "cases.v"))
-        cmd = ["coqc", "-Q", os.path.join(ROOT, "coq"), "Verif", "-Q", cdir, "Run", "observed.v"]
         t0 = time.time()
-        rc1, out1, _ = sh(cmd, cwd=cdir, timeout=3000)
-        rc2, out2, _ = sh(cmd[:-1] + ["cases.v"], cwd=cdir, timeout=3000) if rc1 == 0 else (1, out1, 0)
-        ctx.note("coqc replay+judge rc=%d (%.1fs)" % (rc2, time.time() - t0))
+        units = sorted((d for d in glob.glob(os.path.join(cdir, "shard_*")) if os.path.isdir(d)), key=lambda d: int(d.rsplit("_", 1)[1]))
+        procs = []
+        for d in units:
+            shutil.copyfile(os.path.join(ROOT, "coq", "Run", "ConcCases.v"), os.path.join(d, "cases.v"))
+            base = "coqc -Q %s Verif -Q %s Run " % (os.path.join(ROOT, "coq"), d)
+            procs.append(subprocess.Popen("%sobserved.v && %scases.v" % (base, base), shell=True, cwd=d, stdout=subprocess.PIPE, stderr=subprocess.STDOUT))
+        outs = []
+        for prc in procs:
+            o, _ = prc.communicate()
+            outs.append((prc.returncode, o.decode("utf-8", "replace")))
+        rc2 = max([rc for rc, _ in outs] or [1])
+        ctx.note("coqc replay+judge (%d request sets in parallel) rc=%d (%.1fs)" % (len(units), rc2, time.time() - t0))
         if rc2 != 0:
-            ctx.violation("C08:cases-eval", "the Coq evaluation of the schedules failed", {"kind": "cases-eval", "output": (out1 + out2)[-3000:], "unchecked": "correspondence C08"}, nofail=True)
+            ctx.violation("C08:cases-eval", "the Coq evaluation of the schedules failed", {"kind": "cases-eval", "output": "\n".join(o for rc, o in outs if rc != 0)[-3000:], "unchecked": "correspondence C08"}, nofail=True)
             return finish(ctx, "proof")
-        defs = parse_defs(out2)
+        conc_bad, replay_bad, nobs = [], [], 0
+        for d, (_, o) in zip(units, outs):
+            off = json.load(open(os.path.join(d, "index.json")))
+            dd = parse_defs(o)
+            conc_bad += [(i + off["case_offset"], f) for (i, f) in parse_idx_tuples(dd.get("conc_bad", ""))]
+            replay_bad += [(i + off["run_offset"], f) for (i, f) in parse_idx_tuples(dd.get("replay_bad", ""))]
+            nobs += int(re.sub(r"\D", "", dd.get("n_observed", "0").split(":")[0]) or 0)
+            for fn in ("observed.vo", "observed.glob", "cases.vo", "cases.glob"):
+                try:
+                    os.remove(os.path.join(d, fn))
+                except OSError:
+                    pass
         summ = json.load(open(os.path.join(cdir, "summary.json")))
-        res = {"conc_bad": parse_idx_tuples(defs.get("conc_bad", "")), "replay_bad": parse_idx_tuples(defs.get("replay_bad", "")),
-               "n_observed": int(re.sub(r"\D", "", defs.get("n_observed", "0").split(":")[0]) or 0),
+        res = {"conc_bad": conc_bad, "replay_bad": replay_bad, "n_observed": nobs,
                "summary": {k: summ[k] for k in ("evaluations", "distinct_nontrivial", "rule", "distribution")}, "cases": summ["extra"]["cases"]}
         json.dump(res, open(res_path, "w"))
         for fn in ("observed.vo", "observed.glob", "cases.vo", "cases.glob"):
@@ -863,7 +912,7 @@ def check_C01(ctx):
             ctx.violation("C01:model-drift", "the codec model over the translator's tables disagrees with the running code",
                           {"kind": "correspondence", "projection": "C01 document round trips", "index": i, "case": cases[i] if i < len(cases) else None, "count": len(model_bad)}, nofail=True)
         return found
-    return generic_table_check(ctx, "C01", "Properties/C01.v", ["c01"], "C01Cases.v",
+    return generic_table_check(ctx, "C01", "Properties/C01.v", ["c01", "-shards", "8"], "C01Cases.v",
                                ["Streams/CodecInst.vo", "Gen/TablesShipped.vo"],
                                ["Streams/Codec.v (decode + encode as one pass, over the translator's tables), Streams/CodecInst.v (literal codecs as serialise (deserialise x)), Streams/Literals.v (dateTime, duration parsers)",
                                 "the rebuilt @context: cx_doc (Streams/Codec.v) gives the vocabularies a document uses - its type's, those of every property holding something, those of the values decoded as embedded types - and is compared with the @context of every real output; modelled, not verified: @context aliases (plain contexts only); net/url parsing and URL.String() (url_ok is a conservative character test, norm_iri the identity: the generator stays inside); float formatting (integers only); the literal codecs are Section parameters of the theorems: what `lexical` demands of them is checked for the shipped instance on the generated scalars by the correspondence, not proved for all strings",
